@@ -48,7 +48,7 @@ CONSTANTS Codes,      \* status codes the upstream may use
           Record,     \* TRUE: keep the upstream's event history (generation)
           Dev
 
-AllKinds == {"ok", "refuse", "garbage", "badhdr", "badcl", "badchunk"}
+AllKinds == {"ok", "refuse", "blackhole", "garbage", "badhdr", "badcl", "badchunk"}
 
 (***************************************************************************)
 (* What the upstream can say                                               *)
@@ -77,6 +77,7 @@ GarbageForms == {"binary", "badcode", "nospace", "empty-line"}
 Scenarios ==
   { [kind |-> "ok", g |-> "", resp |-> r] : r \in IF "ok" \in Kinds THEN Resps ELSE {} }
   \cup { [kind |-> "refuse", g |-> "", resp |-> r] : r \in IF "refuse" \in Kinds THEN { CHOOSE x \in Resps : TRUE } ELSE {} }
+  \cup { [kind |-> "blackhole", g |-> "", resp |-> r] : r \in IF "blackhole" \in Kinds THEN { CHOOSE x \in Resps : TRUE } ELSE {} }
   \cup { [kind |-> "garbage", g |-> g, resp |-> r] : g \in GarbageForms, r \in IF "garbage" \in Kinds THEN { CHOOSE x \in Resps : TRUE } ELSE {} }
   \cup { [kind |-> "badhdr", g |-> "", resp |-> r] : r \in IF "badhdr" \in Kinds THEN Resps ELSE {} }
   \cup { [kind |-> "badcl", g |-> "", resp |-> r] : r \in IF "badcl" \in Kinds THEN { x \in Resps : x.fr = "cl" } ELSE {} }
@@ -85,6 +86,7 @@ Scenarios ==
 ScnWire(sc) ==
   CASE sc.kind = "ok"       -> Wire(sc.resp)
     [] sc.kind = "refuse"   -> <<>>
+    [] sc.kind = "blackhole" -> <<>>
     [] sc.kind = "garbage"  -> <<S("garbage", sc.g, 0, 0)>>
     [] sc.kind = "badhdr"   -> InsertAt(Wire(sc.resp), 2, S("badhdr", "", 0, 0))
     [] sc.kind = "badcl"    -> ReplaceFirst(Wire(sc.resp), "cl", S("badcl", "", 0, 0))
@@ -110,7 +112,7 @@ MaxNow == 2 * Timeout + 2
 Init ==
   /\ scn \in Scenarios /\ umode \in UpModes
   /\ uwire = ScnWire(scn) /\ upos = 0
-  /\ ust = (IF scn.kind = "refuse" THEN "refusing" ELSE "listening")
+  /\ ust = (CASE scn.kind = "refuse" -> "refusing" [] scn.kind = "blackhole" -> "blackhole" [] OTHER -> "listening")
   /\ lastsend = 0
   /\ entry \in Entries /\ req \in Requests /\ route \in Routes
   /\ (entry = "handler") => RouteMatches(route, req.uri)
@@ -126,8 +128,9 @@ Eof      == ust = "closed" /\ rpos = upos
 TimerOn  == IF "NoReadTimeout" \in Dev THEN pc = "connect" ELSE TRUE
 TimedOut == TimerOn /\ now - armed >= Timeout
 CanRead  == Avail \/ Eof \/ TimedOut \/ ("GiveUpOnEmptyRead" \in Dev)
-ProxyCanStep == pc \in {"strip", "connect", "write", "map"} \/ (pc = "read" /\ CanRead)
-Blocked  == pc = "read" /\ ~CanRead
+CanConnect == ust # "blackhole" \/ TimedOut          \* the handshake of a black-holed target never completes
+ProxyCanStep == pc \in {"strip", "write", "map"} \/ (pc = "connect" /\ CanConnect) \/ (pc = "read" /\ CanRead)
+Blocked  == (pc = "read" /\ ~CanRead) \/ (pc = "connect" /\ ~CanConnect)
 
 (***************************************************************************)
 (* Proxy                                                                   *)
@@ -139,14 +142,16 @@ P_Strip ==
   /\ pc' = "connect"
   /\ UNCHANGED <<uvars, upos, ust, lastsend, cvars, ps, rpos, lastin, fwd, answer, now, armed, hist>>
 
-\* TcpStream::connect_timeout: a refused connection is an error, a listening peer accepts at once
+\* TcpStream::connect_timeout: a refused connection is an error, a listening peer accepts at once, a target
+\* that never answers the handshake makes the call wait for the timeout
 P_Connect ==
-  /\ pc = "connect"
-  /\ IF ust = "refusing"
+  /\ pc = "connect" /\ CanConnect
+  /\ lastin' = IF ust = "blackhole" THEN "timeout" ELSE lastin
+  /\ IF ust \in {"refusing", "blackhole"}
      THEN /\ ps' = Fail(ps, "err") /\ pc' = "map" /\ ust' = ust /\ hist' = hist
      ELSE /\ ust' = "open" /\ pc' = "write" /\ ps' = ps
           /\ hist' = IF Record THEN Append(hist, [e |-> "accept", i |-> 0, t |-> now]) ELSE hist
-  /\ UNCHANGED <<uvars, upos, lastsend, cvars, puri, rpos, lastin, fwd, answer, now, armed>>
+  /\ UNCHANGED <<uvars, upos, lastsend, cvars, puri, rpos, fwd, answer, now, armed>>
 
 \* clone the request, add X-Forwarded-For, write_all
 P_Write ==
@@ -226,13 +231,14 @@ Inv_Faithful ==
     /\ \E a \in Acceptable(Consumed, TermSeen) : AnsEq(answer, a)
     \* a 502 is not given prematurely: only after a refusal, invalid data, the close or the deadline
     /\ (answer.kind = "502" /\ lastin = "none") => (scn.kind = "refuse" \/ Invalid(Consumed))
+    /\ (scn.kind \in {"refuse", "blackhole"}) => answer.kind = "502"
     /\ (lastin = "eof") => (ust = "closed" /\ rpos = upos)
     /\ (lastin = "timeout") => now >= Timeout
 Inv_NoPanic == answer.kind # "panic"
 
 \* the upstream received the client's request, prefix stripped, X-Forwarded-For = client
 Inv_Forwarded ==
-  (pc \in {"read", "map", "done"} /\ scn.kind # "refuse") => FwdEq(fwd, Forward(req, route, entry))
+  (pc \in {"read", "map", "done"} /\ scn.kind \notin {"refuse", "blackhole"}) => FwdEq(fwd, Forward(req, route, entry))
 
 \* within the configured timeout (scheduling slack = 0 in the model: the proxy is urgent)
 Inv_Timely == pc # "done" => now <= Timeout
@@ -243,6 +249,6 @@ Live_Responds == <>(pc = "done")
 TypeOK ==
   /\ pc \in {"strip", "connect", "write", "read", "map", "done"}
   /\ rpos <= upos /\ upos <= Len(uwire)
-  /\ ust \in {"listening", "refusing", "open", "closed"}
+  /\ ust \in {"listening", "refusing", "blackhole", "open", "closed"}
   /\ now \in 0..MaxNow
 =============================================================================
